@@ -9,6 +9,7 @@
 package dvsim
 
 import (
+	"os"
 	"fmt"
 	"runtime"
 	"sort"
@@ -1635,10 +1636,23 @@ func (w *world) stateDigest() uint64 {
 		}
 		d.SortedStrings(xs)
 		rs := []string{}
-		for k, c := range n.routes {
-			rs = append(rs, fmt.Sprintf("%s|%d|%d=%d", k.name, k.face, k.origin, c))
+		if q := n.router.VerifMgmtQueueLen(); q > 0 {
+			// registrations in progress: which of the queued commands have been carried out so far follows the
+			// order in which the daemon ranged over its maps; only how many are left is canonical
+			rs = append(rs, fmt.Sprintf("installing, %d commands queued", q))
+		} else {
+			for k, c := range n.routes {
+				rs = append(rs, fmt.Sprintf("%s|%d|%d=%d", k.name, k.face, k.origin, c))
+			}
 		}
 		d.SortedStrings(rs)
+		if w.ctx != nil && w.ctx.Log != nil && os.Getenv("VERIF_DEBUG_STATE") != "" {
+			pc := ""
+			for _, pr := range pfx {
+				pc += fmt.Sprintf("%s:%d(known %d latest %d) ", pr.Name, len(pr.Prefixes), pr.Known, pr.Latest)
+			}
+			w.ctx.Logf("  node %d seq %d announced %d pfx {%s} nroutes %d qlen %d", n.id, seq, len(n.announced), pc, len(rs), n.router.VerifMgmtQueueLen())
+		}
 	}
 	d.I(len(w.inflight))
 	return d.Sum()
